@@ -22,12 +22,13 @@ impl Adapter for HedgeAd {
         "hedge"
     }
     fn gen_cfg(&mut self, rng: &mut Rng, _size: Size) -> Value {
-        json!({"hm": rng.below(4), "max": 1 + rng.below(4), "mode": *rng.pick(&["fixed", "fixed", "par", "dyn", "dyn0"]), "d": 1 + rng.below(3), "lazy": if rng.pct(30) { 1 } else { 0 }, "pre": rng.below(4), "ord": rng.below(2), "blk": if rng.pct(25) { 1 } else { 0 }, "sib": rng.below(2)})
+        json!({"hm": rng.below(4), "max": 1 + rng.below(4), "mode": *rng.pick(&["fixed", "fixed", "par", "dyn", "dyn0"]), "d": 1 + rng.below(3), "lazy": if rng.pct(30) { 1 } else { 0 }, "pre": rng.below(4), "ord": rng.below(2), "blk": if rng.pct(25) { 1 } else { 0 }, "sib": rng.below(2), "max0": rng.below(2)})
     }
     fn build(&mut self, cfg: &Value, sim: &mut Sim) {
         // cfg.pre: an earlier, overridden delay setting of another kind (the last one wins); cfg.ord: the
         // number of attempts before or after the delay
-        let max = cfg["max"].as_u64().unwrap() as usize;
+        // cfg.max0 = 1 with one attempt: the builder is told 0 ("no hedging"), which means the same as 1 - a pass-through
+        let max = if cfg["max"].as_u64().unwrap() == 1 && cfg["max0"].as_u64().unwrap_or(0) == 1 { 0 } else { cfg["max"].as_u64().unwrap() as usize };
         let mut b = HedgeLayer::builder();
         let late_max = cfg["ord"].as_u64().unwrap_or(0) == 1;
         if !late_max {
